@@ -75,7 +75,7 @@ class NodeX:
         self.top.request(PDU(payload, destination=LocalBroadcast()))
 
 
-def layout(nsub, simple_per_subnet, nforeign, two_hop):
+def layout(nsub, simple_per_subnet, nforeign, two_hop, foreign_home=None):
     """nsub subnets 192.168.k.0/24 joined by one IP router, one BBMD (.2) per subnet listing every BBMD
     (itself included), simple nodes (.3, .4), foreign devices on an extra subnet 192.168.9.0/24"""
     nets = {}
@@ -101,7 +101,11 @@ def layout(nsub, simple_per_subnet, nforeign, two_hop):
         nets[9] = IPNetwork("net9")
         router.add_network(Address("192.168.9.1/24"), nets[9])
         for j in range(nforeign):
-            f = NodeX("foreign", "192.168.9.%d/24" % (3 + j), nets[9], "foreign%d" % j)
+            if foreign_home is not None and j == 0:
+                # the first foreign device lives on the subnet of BBMD `foreign_home` (and registers elsewhere)
+                f = NodeX("foreign", "192.168.%d.%d/24" % (foreign_home, 9), nets[foreign_home], "foreign0@net%d" % foreign_home)
+            else:
+                f = NodeX("foreign", "192.168.9.%d/24" % (3 + j), nets[9], "foreign%d" % j)
             foreign.append(f)
             nodes.append(f)
     return nets, nodes, bbmds, foreign
@@ -109,14 +113,15 @@ def layout(nsub, simple_per_subnet, nforeign, two_hop):
 
 @meta(bounds="nsub IP subnets joined by vlan.IPRouter, one BBMD per subnet with a full distribution table (two-hop /32 entries or "
              "one-hop /24 directed broadcasts per instance, each BBMD lists itself), simple nodes per subnet and foreign devices "
-             "registered round-robin from BBMD `register_at` on (TTL 30, just acknowledged) as given by the instance; originator symbolic over every "
+             "registered round-robin from BBMD `register_at` on (TTL 30, just acknowledged) as given by the instance - with `foreign_home` the first "
+             "of them lives on the subnet of that BBMD while registered with another; originator symbolic over every "
              "node; payload 2 symbolic octets",
       outside="partial distribution tables (Annex J promises full coverage only when every BBMD lists every other), more "
               "subnets / nodes than instantiated",
       stubs=STUBS)
-def bip_scn(d, nsub, simple, nforeign, two_hop, register_at=0):
+def bip_scn(d, nsub, simple, nforeign, two_hop, register_at=0, foreign_home=None):
     w = World()
-    nets, nodes, bbmds, foreign = layout(nsub, simple, nforeign, two_hop)
+    nets, nodes, bbmds, foreign = layout(nsub, simple, nforeign, two_hop, foreign_home)
     for i, f in enumerate(foreign):
         # foreign device i registers with BBMD (register_at + i) mod #BBMDs
         f.bip.register(bbmds[(register_at + i) % len(bbmds)].station, 30)
@@ -288,6 +293,60 @@ def foreign_trio(d, action):
     d.reach()
 
 
+@meta(bounds="one BBMD, one simple node, three foreign devices registered in the same instant: the first with TTL 1 and no renewal "
+             "(it runs out), the second unregisters at a symbolic second 0..3, the third stays (TTL 60).  The grace the BBMD "
+             "grants is MEASURED: the remaining time it lists right after the registration minus the TTL (at most the 30 s of "
+             "J.5.2.3).  At a symbolic second up to two seconds past the later of the two ends the simple node broadcasts and "
+             "the table is read: the first device is gone once TTL + grace have passed, the second once the grace has passed "
+             "since it unregistered - each entry ages on its own, whatever happens to its neighbours in the table - the "
+             "third is served and listed throughout",
+      outside="more than three entries; sub-second instants",
+      stubs=STUBS, assumes=["the grace period is the one the BBMD itself lists at registration"])
+def foreign_age(d):
+    w = World()
+    nets, nodes, bbmds, foreign = layout(1, 1, 3, True)
+    bb, simple = bbmds[0], nodes[1]
+    ttls = [1, 60, 60]
+    for f, ttl in zip(foreign, ttls):
+        f.bip.register(bb.station, ttl)
+    w.settle()
+    for f in foreign:
+        if f.bip.registrationStatus != 0:
+            raise Violation("registration-not-acknowledged", node=f.name, status=f.bip.registrationStatus)
+    t0 = w.clock
+    foreign[0].bip.suspend_task()
+    listed = fdt_listing(w, simple, bb)
+    rem = {a: r for (a, t, r) in (listed or [])}
+    grace = rem.get(bytes(foreign[0].station.addrAddr), 1) - 1
+    if listed is None or len(listed) != 3 or not (0 <= grace <= GRACE):
+        raise Violation("age-initial-listing", listed=len(listed or []), grace=grace)
+    u = d.int(0, 3, 'unregister_at')
+    w.run(until=t0 + u)
+    foreign[1].bip.unregister()
+    end0, end1 = 1 + grace, u + grace
+    wait = d.int(0, max(end0, end1) + 2, 'wait')
+    d.assume(wait >= u)
+    w.run(until=t0 + wait)
+    for f in foreign:
+        f.top.got = []
+    simple.broadcast(b"\x10\x08")
+    w.settle()
+    listed = fdt_listing(w, simple, bb)
+    if listed is None:
+        raise Violation("read-fdt-not-answered")
+    for k, (f, must, must_not) in enumerate(((foreign[0], wait <= 1, wait > end0), (foreign[1], wait < u, wait > end1),
+                                            (foreign[2], True, False))):
+        served = len(f.top.got)
+        is_listed = any(a == bytes(f.station.addrAddr) for (a, t, r) in listed)
+        if served > 1:
+            raise Violation("foreign-device-served-twice", node=f.name, n=served)
+        if must and (served != 1 or not is_listed):
+            raise Violation("age-not-served", node=f.name, wait=wait, unregister_at=u, grace=grace, served=served, listed=is_listed)
+        if must_not and (served or is_listed):
+            raise Violation("age-still-served", node=f.name, wait=wait, unregister_at=u, grace=grace, served=served, listed=is_listed)
+    d.reach()
+
+
 def instances(tier):
     q = tier == "quick"
     out = []
@@ -307,6 +366,12 @@ def instances(tier):
                                     budget=120, path_timeout=120))
         for action in ("delete", "unregister"):
             out.append(Inst(foreign_trio, dict(action=action), budget=150, path_timeout=120))
+        out.append(Inst(foreign_age, {}, budget=200, path_timeout=120))
+        # a foreign device that lives on the subnet of one BBMD and is registered with another
+        # (two-hop distribution only: with directed broadcasts into its subnet such a device hears every broadcast twice by
+        # configuration - Annex J has foreign devices on subnets that no BBMD serves)
+        out.append(Inst(bip_scn, dict(nsub=2, simple=1, nforeign=2, two_hop=True, register_at=1, foreign_home=1), budget=120))
+        out.append(Inst(bip_scn, dict(nsub=3, simple=1, nforeign=2, two_hop=True, register_at=2, foreign_home=1), budget=120))
         out.append(Inst(foreign_scn, dict(ttl_max=2, renew=False, action="none"), budget=80, path_timeout=90))
         out.append(Inst(foreign_scn, dict(ttl_max=1, renew=True, action="none"), budget=80, path_timeout=90))
         # a time-to-live that does not divide the grace period: the device's own expiry tracking (TTL + 30) falls
@@ -333,6 +398,11 @@ def instances(tier):
         out.append(Inst(bip_scn, dict(nsub=3, simple=1, nforeign=3, two_hop=True), budget=600, path_timeout=120))
         for action in ("delete", "unregister"):
             out.append(Inst(foreign_trio, dict(action=action), budget=600, path_timeout=120))
+        out.append(Inst(foreign_age, {}, budget=900, path_timeout=120))
+        for nsub in (2, 3):
+            for home in range(1, nsub + 1):
+                out.append(Inst(bip_scn, dict(nsub=nsub, simple=1, nforeign=2, two_hop=True, register_at=home % nsub,
+                                              foreign_home=home), budget=600, path_timeout=120))
         for renew in (False, True):
             out.append(Inst(foreign_scn, dict(ttl_max=8, renew=renew, action="none"), budget=900, path_timeout=120))
         out.append(Inst(foreign_scn, dict(ttl_min=7, ttl_max=7, renew=True, action="none", wait_from=30), budget=600,
